@@ -29,10 +29,22 @@ const c16ExpiresLayout = "Mon, 02 Jan 2006 15:04:05 MST" // the layout LookupWel
 type c16WkScript struct {
 	chunked      bool
 	status       int
-	cacheControl string
+	cacheControl []string // one entry per Cache-Control header line
 	expires      string
 	hasCC, hasEx bool
 	body         []byte
+}
+
+// c16CCLines decodes the cache-control argument: `-` (no header) or one hex text per header line, joined by `|`.
+func c16CCLines(arg string) []string {
+	if arg == "-" {
+		return nil
+	}
+	var out []string
+	for _, l := range strings.Split(arg, "|") {
+		out = append(out, string(unhx(l)))
+	}
+	return out
 }
 
 var (
@@ -49,8 +61,8 @@ func c16WkServer() http.RoundTripper {
 			c16WkSrvMu.Lock()
 			s := c16WkCurrent
 			c16WkSrvMu.Unlock()
-			if s.hasCC {
-				w.Header().Set("Cache-Control", s.cacheControl)
+			for _, l := range s.cacheControl {
+				w.Header().Add("Cache-Control", l)
 			}
 			if s.hasEx {
 				w.Header().Set("Expires", s.expires)
@@ -115,7 +127,7 @@ func execWellknown(op string, args []string) string {
 		}
 	}
 	sc := c16WkScript{chunked: mode == "real-chunked", status: status, body: body,
-		cacheControl: string(unhx(args[3])), hasCC: args[3] != "-", expires: string(unhx(args[4])), hasEx: args[4] != "-"}
+		cacheControl: c16CCLines(args[3]), hasCC: args[3] != "-", expires: string(unhx(args[4])), hasEx: args[4] != "-"}
 	var tr http.RoundTripper
 	switch mode {
 	case "real-cl", "real-chunked":
@@ -129,7 +141,7 @@ func execWellknown(op string, args []string) string {
 			h["Content-Length"] = []string{string(unhx(args[2]))}
 		}
 		if sc.hasCC {
-			h["Cache-Control"] = []string{sc.cacheControl}
+			h["Cache-Control"] = sc.cacheControl
 		}
 		if sc.hasEx {
 			h["Expires"] = []string{sc.expires}
@@ -214,6 +226,12 @@ var c16WkDocs = []string{
 	`{"M.server":null,"m.SERVER":"c.example"}`, `{"m.server":"a.example","nested":{"m.server":"inner.example"}}`, `{"nested":{"m.server":"inner.example"}}`,
 }
 
+// c16WkCCLineSets: replies with two or three Cache-Control header lines
+var c16WkCCLineSets = [][]string{
+	{"no-cache", "max-age=100"}, {"max-age=100", "no-cache"}, {"public", "max-age=5", "must-revalidate"}, {"max-age=abc", "max-age=7"},
+	{"max-age=7", "max-age=abc"}, {"max-age=1", "max-age=2"}, {"private", "no-store"}, {"s-maxage=9", "MAX-AGE=60"}, {"no-cache, no-store", "private, max-age=33"},
+}
+
 // c16BodyDescr renders prefix + n pad bytes + suffix.
 func c16BodyDescr(prefix string, n int, pad byte, suffix string) string {
 	return hx([]byte(prefix)) + "+" + strconv.Itoa(n) + "x" + hx([]byte{pad}) + "+" + hx([]byte(suffix))
@@ -274,6 +292,33 @@ func genWellknown(o *Out, tier string, r *Rng) {
 		return res
 	}
 	good := `{"m.server":"a.example:8448"}`
+	// several Cache-Control header lines: max-age may stand on any of them
+	emitLines := func(mode string, lines []string, ex string, hasEx bool) string {
+		exP, cands := "x", []string(nil)
+		if hasEx {
+			exP, cands = c16ExpiresParsed(ex)
+		}
+		cs := "."
+		if len(cands) > 0 {
+			cs = strings.Join(cands, ",")
+		}
+		hl := make([]string, len(lines))
+		for i, l := range lines {
+			hl[i] = hx([]byte(l))
+		}
+		res := o.Do("lookup", mode, "200", "-", strings.Join(hl, "|"), c16OptHex(hasEx, ex), exP, c16BodyDescr(good, 0, ' ', ``), cs)
+		o.Count("lookup.cache-control-lines." + strconv.Itoa(len(lines)))
+		if strings.HasPrefix(res, "ok:") {
+			o.Count("lookup.ok." + strings.SplitN(res, ":", 4)[2])
+		}
+		return res
+	}
+	for _, lines := range c16WkCCLineSets {
+		for _, mode := range []string{"stub", "real-chunked"} {
+			emitLines(mode, lines, "Wed, 21 Oct 2045 07:28:00 GMT", true)
+			emitLines(mode, lines, "", false)
+		}
+	}
 	// 1. sizes around the limit, chunked and with Content-Length, padding inside and after the document
 	for _, total := range []int{len(good), 1024, 51199, 51200, 51201, 51202, 60000, 102400, 102401, 200000} {
 		for _, mode := range []string{"real-cl", "real-chunked", "stub"} {
@@ -358,6 +403,14 @@ func genWellknown(o *Out, tier string, r *Rng) {
 			if r.Chance(50) {
 				cl = Pick(r, c16WkContentLength)
 			}
+		}
+		if hasCC && status == 200 && r.Chance(12) && c16CleanForRealHTTP(cc) && (!hasEx || c16CleanForRealHTTP(ex)) {
+			lines := []string{Pick(r, []string{"no-cache", "public", "private", "max-age=x"}), cc}
+			if r.Bool() {
+				lines = []string{cc, Pick(r, []string{"no-cache", "max-age=77", "no-store"})}
+			}
+			emitLines(Pick(r, []string{"stub", "real-chunked"}), lines, ex, hasEx)
+			continue
 		}
 		res := emit(mode, status, cl, hasCL, cc, hasCC, ex, hasEx, body)
 		if i < 4 {
